@@ -80,7 +80,8 @@ def _worker(args):
         else:
             cls = None
             for un, src, obj, kind, name in ASSUMED:
-                if re.search(un, unit_name) and re.search(src, o.inst.src_fn() or "") and re.search(obj, o.desc) and re.search(kind, o.kind):
+                chain = [l.get("fn") or "" for l in (o.inst.loc or [])] or [o.inst.src_fn() or ""]     # a helper extracted from a listed function is that function's code
+                if re.search(un, unit_name) and any(re.search(src, c) for c in chain) and re.search(obj, o.desc) and re.search(kind, o.kind):
                     cls = "assumed:" + name
             if cls is None:
                 cls = "unknown-extent" if o.ok is None else "UNPROVEN"
